@@ -554,7 +554,11 @@ func (r *run) stepReport(op *Op) {
 		return
 	}
 	if !done {
-		r.viol("C07", "report did not return although the monitor finished handling it")
+		tag := "C07"
+		if p.blockErr == "invalid" {
+			tag = "C04,C07"
+		}
+		r.viol(tag, "report did not return although the monitor finished handling it")
 		return
 	}
 	if op.Ctx != "pre" && !cancelledCaller {
@@ -566,7 +570,7 @@ func (r *run) stepReport(op *Op) {
 			}
 		case p.blockErr == "invalid":
 			if err == nil || !errors.Is(err, ErrInvalid) {
-				r.viol("C04", "a blocking report of a value whose stack does not verify returned %v, want the verifier's error", err)
+				r.viol("C04,C07", "a blocking report of a value whose stack does not verify returned %v, want the verifier's error", err)
 				return
 			}
 			r.label("blocking-report-rejected")
